@@ -99,6 +99,34 @@ def gen_cases(rng, tier):
             row = [rand_premul(rng) + (out_mask(),) for _ in range(left)] + inside + [rand_premul(rng) + (out_mask(),) for _ in range(right)]
             cs, args = px_case(0, mode, hq, False, color, True, left, span_len, row, [])
             cases.append((cs, args + [-777, 3 * 10**8 + g, left + pos]))
+    # blit_anti_h2 pairs: the target is the SECOND pixel of the pair; its own coverage is fixed, the first pixel's coverage varies
+    for g in range(80 if tier == "quick" else 1000):
+        mode = rng.choice([1, 3, 3, rng.randrange(29)])
+        hq = rng.random() < 0.6
+        color = rand_color(rng)
+        if rng.random() < 0.5:
+            color = tuple(color[:3]) + (255,)
+        tgt = rand_premul(rng) + (255,)
+        a1 = rng.choice([1, 64, 128, 200, 254, rng.randint(1, 254)])
+        for v in range(5):
+            left = rng.randint(1, 12)
+            right = rng.randint(0, 12)
+            row = [rand_premul(rng) + (255,) for _ in range(left)] + [tgt] + [rand_premul(rng) + (255,) for _ in range(right)]
+            a0 = rng.choice([0, 255, 1, rng.randint(0, 255)])
+            cs, args = px_case(3, mode, hq, True, color, False, left - 1, 2, row, [a0, a1])
+            cases.append((cs, args + [-777, 4 * 10**8 + g, left]))
+    # the same partially covered pixel through blit_v (a one-column row) and through blit_anti_h (longer rows), every colour space
+    for g in range(60 if tier == "quick" else 800):
+        cspace = rng.choice([0, 1, 2, 3])
+        mode = rng.choice([1, 3, 3, 3, rng.randrange(29)])
+        col = list(rand_color(rng))
+        if rng.random() < 0.6:
+            col[3] = 255
+        dst = rand_premul(rng) if rng.random() < 0.5 else rng.choice([(128, 128, 128, 255), (200, 60, 90, 255), (10, 20, 30, 40)])
+        fr = rng.choice([250, 500, 750, 100, 900])
+        hq = int(rng.random() < 0.4)
+        for wdt in (1, 2, 3, 8, 17, 40):
+            cases.append(("cs_span", [cspace, mode, hq] + col + list(dst) + [fr, wdt, -777, 5 * 10**8 + g, 0]))
     # tiled, multi-row draws (pixmap wider than 8191, three rows): the target sits in the narrow last tile column;
     # its neighbours' destination and mask bytes vary, and one member of the group is an untiled pixmap
     for g in range(4 if tier == "quick" else 40):
@@ -137,9 +165,12 @@ def post_oracle(cases, outs):
         if len(a) < 3 or a[-3] != -777:
             continue
         g, t = a[-2], a[-1]
-        c = decode(a[:-3])
-        o = decode_out(outs[i], c["w"]) if outs[i] and outs[i][0].isdigit() else None
-        val = tuple(o[t]) if o else outs[i].strip()
+        if s == "cs_span":
+            val = outs[i].strip()
+        else:
+            c = decode(a[:-3])
+            o = decode_out(outs[i], c["w"]) if outs[i] and outs[i][0].isdigit() else None
+            val = tuple(o[t]) if o else outs[i].strip()
         groups.setdefault(g, []).append((i, val))
     bad = []
     for g, lst in groups.items():
@@ -152,6 +183,8 @@ def post_oracle(cases, outs):
 
 
 def known_class(suite, args, out, what):
+    if suite == "cs_span":
+        return None
     a = args[:-3] if len(args) >= 3 and args[-3] == -777 else args
     c = decode(a)
     if c["has_mask"] and MODES[c["mode"]] in KNOWN_MODES:
@@ -159,8 +192,13 @@ def known_class(suite, args, out, what):
     return None
 
 
-relation = c08.relation
+def relation(suite, args, mo, io):
+    if suite == "cs_span":
+        return mo.strip() == "-9"
+    return c08.relation(suite, args, mo, io)
 
 
 def nontrivial_tag(suite, args, out):
+    if suite == "cs_span":
+        return "cs-span:%d" % args[0]
     return c08.nontrivial_tag(suite, args[:-3] if len(args) >= 3 and args[-3] == -777 else args, out)
